@@ -96,6 +96,7 @@ def main():
     ap = argparse.ArgumentParser()
     ap.add_argument("-j", type=int, default=14); ap.add_argument("--scale", type=float, default=0.15)
     ap.add_argument("--files", default=""); ap.add_argument("--limit", type=int, default=0); ap.add_argument("--out", default=V + "/mutscreen/results.jsonl")
+    ap.add_argument("--set", type=int, default=1, help="mutgen operator set")
     ap.add_argument("--rerun-survivors", default="", help="results.jsonl of an earlier run: only its SURVIVED mutants are run again (e.g. at --scale 1.0)")
     a = ap.parse_args()
     files = [f for f in a.files.split(",") if f] or list(FILEMAP)
@@ -110,7 +111,7 @@ def main():
     for rel in files:
         d = f"{TMP}/mutants/{rel}.d"
         if os.path.isdir(d): shutil.rmtree(d)
-        subprocess.run([TMP + "/mutgen", "-file", f"{REPO}/{rel}", "-out", d], check=True)
+        subprocess.run([TMP + "/mutgen", "-set", str(a.set), "-file", f"{REPO}/{rel}", "-out", d], check=True)
         idx = json.load(open(d + "/index.json"))
         if a.limit: idx = idx[:a.limit]
         for e in idx:
